@@ -82,14 +82,14 @@ def build_reads(case):
 
 def framer_units(front, hosted, flags):
     """the unit list the front-end hands to the framer's unit filter: the sync stream handlers and the asyncio
-    handlers add 0 when broadcast is enabled, the sync datagram handler does not (see sync-udp-broadcast-filtered)"""
-    if flags.get('broadcast_enable') and front in ('sync-tcp', 'sync-serial', 'aio-tcp', 'aio-udp') and 0 not in hosted:
+    handlers add 0 when broadcast is enabled (the sync datagram handler too since fix ba8ed26)"""
+    if flags.get('broadcast_enable') and front in ('sync-tcp', 'sync-serial', 'sync-udp', 'aio-tcp', 'aio-udp') and 0 not in hosted:
         return hosted + [0]
     return list(hosted)
 
 
 LOSSY = ('rtu-one-frame-per-call', 'binary-pipelined-frame-skipped', 'foreign-unit-frame-discards-rest-of-read', 'binary-delimiter-in-body',
-         'tls-framer-keyerror-in-multi-unit-mode', 'twisted-udp-dead', 'twisted-listen-only-is-permanent', 'sync-udp-broadcast-filtered')
+         'tls-framer-keyerror-in-multi-unit-mode', 'twisted-udp-dead', 'twisted-listen-only-is-permanent')
 
 
 def regions(case):
@@ -104,8 +104,6 @@ def regions(case):
         out.add('tls-framer-keyerror-in-multi-unit-mode')
     units_seen_by_framer = framer_units(front, hosted, flags)
     filter_on = multi and 0 not in units_seen_by_framer and 255 not in units_seen_by_framer
-    if front == 'sync-udp' and multi and flags.get('broadcast_enable') and filter_on and any(fr[0] not in hosted for rd in case['reads'] for fr in rd):
-        out.add('sync-udp-broadcast-filtered')
     for rd in case['reads']:
         if len(rd) >= 2:
             if framing == 'rtu':
